@@ -149,7 +149,22 @@ pub fn history<F: Fl, const ALPHA: u8, const DEPTH: usize>(cap: u64, n: u8, tear
                 (1, 1) | (2, 1) | (3, 5) | (4, 4) | (5, 1) => {
                     if let Some(rx) = w.rx[0].as_ref() {
                         let exp = m.recv(0);
-                        check_recv::<F>(F::try_recv(rx), exp);
+                        // entry point: try_recv, the non-blocking iterator, or (when the model says
+                        // it cannot block) the blocking recv
+                        let how: u8 = kani::any();
+                        if how == 1 {
+                            match F::try_iter_next(rx) {
+                                Some(v) => assert!(exp.0 == 0 && exp.1 == v.id(), "C09: try_iter yielded a value the model does not predict"),
+                                None => assert!(exp.0 != 0, "C09: try_iter stopped although a value is available"),
+                            }
+                        } else if how == 2 && exp.0 != 1 {
+                            match F::recv(rx) {
+                                Ok(v) => assert!(exp.0 == 0 && exp.1 == v.id(), "C09: recv returned a value the model does not predict"),
+                                Err(_) => assert!(exp.0 == 2, "C09: recv reported the end, the model predicts otherwise"),
+                            }
+                        } else {
+                            check_recv::<F>(F::try_recv(rx), exp);
+                        }
                         if exp.0 == 2 {
                             saw_disc = true;
                         }
